@@ -12,7 +12,7 @@ class Stores(V.Family):
     driver_pkg = "stores"
     monitor = ("StoresTrace.tla", "StoresTrace.cfg")
     step_keys = ("act", "S", "e", "x", "a", "b", "v", "ks", "var")
-    reset_keys = ("n", "src", "qe")
+    reset_keys = ("n", "src", "qe", "nk")
     assume = [
         "neo-go v0.107.0 compiler/VM/ledger/neotest are faithful to the production platform (transaction atomicity on FAULT, "
         "witness checks, storage.Find over a byte prefix, role designation effective from the next block)",
